@@ -250,6 +250,10 @@ pub struct DoyRead {
     pub s: usize,
 }
 
+thread_local! {
+    static ORDINAL_FORMAT: hifitime::efmt::Format = <hifitime::efmt::Format as std::str::FromStr>::from_str("%j").unwrap();
+}
+
 fn doyread_strategy() -> BS<DoyRead> {
     (ns1900_0001_9999(), 0usize..9).prop_map(|(g, s)| DoyRead { g, s }).boxed()
 }
@@ -269,6 +273,9 @@ fn doyread_oracle(c: &DoyRead) -> Verdict {
     ensure!(lib!(e.year()) as i64 == g.y, "year() = {}, want {}", e.year(), g.y);
     let diy = lib!(e.duration_in_year());
     ensure!(count(diy) == in_year, "duration_in_year = {}, want {}", count(diy), in_year);
+    // the ordinal day printed by %j is the whole part of that day of year
+    let j = lib!(format!("{}", hifitime::efmt::Formatter::new(e, ORDINAL_FORMAT.with(|f| *f))));
+    ensure!(j == format!("{:03}", in_year / NS_D + 1), "%j of {} count {} prints {:?}, want {:03}", SCALE_NAMES[c.s], cnt, j, in_year / NS_D + 1);
     let class = if g.m == 12 && g.d == 31 { "31-december" } else if g.y < 1900 { "before-1900" } else if c.s != S_GPST { "scale!=GPST" } else { "plain" };
     Verdict::Pass(class, class != "plain")
 }
